@@ -9,6 +9,9 @@ def run(ctx):
         ("scripted-nonidem-3x1", ["-nodes", "3", "-numconns", "1", "-clients", "2", "-workers", "3", "-round", "80"], True),
         ("scripted-nonidem-2x2", ["-nodes", "2", "-numconns", "2", "-clients", "2", "-workers", "3", "-round", "80"], True),
         ("random-drops-3x1", ["-random", n(500, 4000), "-nodes", "3", "-numconns", "1", "-clients", "3", "-workers", "4", "-round", "150", "-droprate", "0.5", "-okbias", "1"], False),
+        # graph requests in every form (traversal text, CQL text and EXECUTE of a prepared statement, all with the graph
+        # payload) and prepared statements
+        ("random-graph-3x1", ["-random", n(240, 2000), "-kinds", "graph,graph,execute", "-nodes", "3", "-numconns", "1", "-clients", "3", "-workers", "4", "-round", "120", "-okbias", "1", "-nodrops"], False),
         # connections closed by the proxy itself (a node falls silent, the idle timeout passes) with requests outstanding
         ("idle-close-3x1", ["-random", n(160, 1200), "-nodes", "3", "-numconns", "1", "-clients", "3", "-workers", "4", "-round", "80", "-idleclose", "-okbias", "2", "-nodrops"], False),
     ]
